@@ -39,6 +39,12 @@ RULES = {
    "1.5 != 0 (fractional untyped float against untyped int/rune constant, float on the left) is rejected while 0 != 1.5 is accepted", "template.go untypedComparable asymmetry"),
   ("KF-C02-3", "float-constant-in-integer-remainder-faults", r'^fault-on-valid-expression/% ',
    "0.0 % c_int / c_int % 2.0 (untyped float constant with integral value, valid after conversion to the integer type) dies inside go/constant (invalid binary operation)", "ast.go binaryOp folds without converting the untyped operand"),
+  ("KF-C02-4", "exposed-composite-literal-in-statement-header-not-parenthesised", r'^emitted-code-does-not-parse/[a-z-]+/literal-exposed/',
+   "a composite literal of a named type that is exposed in an if / for / switch / range header (if N{v: 1}.ok {, for i := N{v: 1}.v; .., switch N{v: 1}.M().v {) is emitted without the parentheses Go requires there: the output does not parse. Only operands of binary operators and switch tags are protected, and only through plain selector chains (CheckParenExpr)", "internal/target/util/util_gengo.go:85 CheckParenExpr, called from ast.go:847, codebuild.go:1885, util_gengo.go:1095 only"),
+ ],
+ "C06": [
+  ("KF-C06-1", "generic-function-value-accepted-for-interface-parameter", r'^generic-function-value-accepted-for-interface-parameter/',
+   "an uninstantiated generic function value (ov.Id) is accepted as argument for an interface (any, ...any) parameter and emitted as is: Go rejects it (cannot use generic function without instantiation); inside an overload family the candidate with the interface parameter is chosen although Go's rules skip it", "template.go AssignableConv: types.AssignableTo(generic signature, interface) is true"),
  ],
  "C03": [
   ("KF-C03-1", "typed-constant-result-reported-untyped", r'^type (int|int8|uint8|MyInt) reported as untyped int \[constant-operands',
